@@ -126,7 +126,14 @@ def run(ctx, res):
     wcases = g.tagged("CASE")
     vlib.write_ndjson(ctx.path("writer_cases.ndjson"), wcases)
     vlib.run_harness(["srcwriter", ctx.path("writer_cases.ndjson"), ctx.path("writer_events.ndjson")])
-    events += vlib.read_ndjson(ctx.path("writer_events.ndjson"))
+    light = vlib.read_ndjson(ctx.path("writer_events.ndjson"))
+    # spread the heavy project events evenly among the many light ones, so that no validator shard gets all of them
+    heavy, events = events, []
+    step = max(1, len(light) // max(1, len(heavy)))
+    for i, h in enumerate(heavy):
+        events.append(h)
+        events.extend(light[i * step:(i + 1) * step])
+    events.extend(light[len(heavy) * step:])
     o = vlib.validate_trace("Trace_C06", "Trace_C06.cfg", events, workdir=ctx.work, timeout=3000, xmx="3g")
     res.add_trace(o)
     proj = [s for s in o.stats if "maps" in s]
